@@ -12,7 +12,9 @@ trap cleanup EXIT
 git -C /repo worktree add --detach "$R" HEAD >/dev/null 2>&1 || { echo "worktree failed"; exit 2; }
 git -C "$R" apply "$P" || { echo "patch does not apply"; exit 2; }
 mkdir -p "$V"
-rsync -a --exclude .git --exclude evidence/replay --exclude evidence/work /verif/ "$V"/
+# VERIF_SRC: a frozen copy of /verif (so that the rehearsal is not disturbed by work in progress there)
+SRC="${VERIF_SRC:-$( [ -d /tmp/mut/verif-snap ] && echo /tmp/mut/verif-snap || echo /verif )}"
+rsync -a --exclude .git --exclude evidence/replay --exclude evidence/work "$SRC"/ "$V"/
 mkdir -p "$V/evidence/work" "$V/evidence/replay"
 rm -f "$V/bin/harness" "$V/bin/harness_race" "$V/bin/extract"
 cd "$V"
